@@ -256,18 +256,25 @@ class PropertyRun:
     # ------------------------------------------------------------------ main
     def run(self):
         spec = self.spec
-        try:
-            for name in spec.get('verus_units', []):
+        # a unit that cannot be built (lost anchor, construct outside the subset) is undecided on its
+        # own; the other units of the property still run and their refutations stand
+        for name in spec.get('verus_units', []):
+            try:
                 self.run_verus_unit(name)
-            kn = list(spec.get('kani_units', []))
-            if self.tier == 'thorough':
-                kn += spec.get('kani_units_thorough', [])
-            if kn:
+            except LostAnchor as e:
+                self.bad_units.add(name)
+                self.undecided.append(f'verus unit {name}: lost anchor: {e}')
+            except Unsupported as e:
+                self.bad_units.add(name)
+                self.undecided.append(f'verus unit {name}: construct outside the extractable subset: {e}')
+        kn = list(spec.get('kani_units', []))
+        if self.tier == 'thorough':
+            kn += spec.get('kani_units_thorough', [])
+        if kn:
+            try:
                 self.run_kani_units(kn)
-        except LostAnchor as e:
-            self.undecided.append(f'lost anchor: {e}')
-        except Unsupported as e:
-            self.undecided.append(f'construct outside the extractable subset: {e}')
+            except LostAnchor as e:
+                self.undecided.append(f'kani units: lost anchor: {e}')
         # trusted-base allow-list
         allow_p = os.path.join(VERIF, 'contracts', 'trusted_allow.json')
         allow = json.load(open(allow_p)) if os.path.exists(allow_p) else {}
